@@ -276,3 +276,60 @@ func TestVP_C01_ConcurrentReplay(t *testing.T) {
 		st.Case(fmt.Sprintf("sender=%d messages=%d copies=%d mixPrevious=%v", from, n, g, mixOld), true, fmt.Sprintf("copies-%d", g))
 	})
 }
+
+// TestVP_C01_ConcurrentStreams: several dispatchers hand the same run of messages to one
+// endpoint without waiting for each other (two copies of a tunnel's traffic arriving over two
+// connections). Messages may overtake each other, so a message can be refused because a later
+// one was accepted first; but none is accepted twice, accepted plaintexts are what was sealed,
+// and the last message of the run is accepted exactly once. Runs under the race detector.
+func TestVP_C01_ConcurrentStreams(t *testing.T) {
+	st := vp.NewStats("C01", "concurrent-streams", "real SessionKey pair; a run of 50-400 messages handed to the receiver by 2-5 dispatchers that each walk the whole run at their own pace; at most one acceptance per message, exactly one for the last; non-trivial = always")
+	defer st.Flush()
+	rapid.Check(t, func(t *rapid.T) {
+		pair := vpC01Pair(t)
+		from := rapid.IntRange(0, 1).Draw(t, "sender")
+		snd, rcv := pair[from], pair[1-from]
+		n := rapid.IntRange(50, 400).Draw(t, "messages")
+		g := rapid.IntRange(2, 5).Draw(t, "dispatchers")
+		cts := make([][]byte, n)
+		for i := range cts {
+			ct, err := snd.Encrypt([]byte(fmt.Sprintf("message %d", i)))
+			if err != nil {
+				t.Fatalf("harness: %v", err)
+			}
+			cts[i] = ct
+		}
+		accepted := make([]atomic.Int64, n)
+		var wrong atomic.Int64
+		var wg sync.WaitGroup
+		for d := 0; d < g; d++ {
+			wg.Add(1)
+			go func() {
+				defer wg.Done()
+				for i, ct := range cts {
+					out, err := rcv.Decrypt(append([]byte(nil), ct...))
+					if err != nil {
+						continue
+					}
+					if string(out) != fmt.Sprintf("message %d", i) {
+						wrong.Add(1)
+					}
+					accepted[i].Add(1)
+				}
+			}()
+		}
+		wg.Wait()
+		if wrong.Load() != 0 {
+			t.Fatalf("VPFAIL C01 %d accepted messages carried a plaintext that was not the one sealed", wrong.Load())
+		}
+		for i := range accepted {
+			if c := accepted[i].Load(); c > 1 {
+				t.Fatalf("VPFAIL C01 message %d of %d was accepted %d times by %d concurrent dispatchers", i, n, c, g)
+			}
+		}
+		if c := accepted[n-1].Load(); c != 1 {
+			t.Fatalf("VPFAIL C01 the last message of the run was accepted %d times (dispatchers: %d)", c, g)
+		}
+		st.Case(fmt.Sprintf("sender=%d messages=%d dispatchers=%d", from, n, g), true, fmt.Sprintf("dispatchers-%d", g))
+	})
+}
